@@ -118,8 +118,8 @@ class QueryPlanner:
         idx = '.'.join(idx_ar).lower()
         info = self.predictor_info.get(idx)
         if info is not None:
-            info['version'] = version
-            info['name'] = name
+            # don't write the version of this reference into the shared catalog entry
+            info = dict(info, version=version, name=name)
         return info
 
     def prepare_integration_select(self, database, query):
